@@ -197,6 +197,29 @@ func checkReseed(w *World, r *Report, d *detInfo, k *kernels, curFFCField int, r
 				okG = hasGuard(gs, "not("+leaf+")")
 			}
 			r.Check(okG, rule, "the background is not updated while the current frame is FFC-affected", w.InstrPos(call), strings.Join(guardStrings(gs), " ; "))
+			// ... and nothing else keeps a frame out of it: in particular not the previous frame's FFC state - the first
+			// frame after the calibration is the one that re-seeds the background
+			var extra []string
+			nCur := 0
+			for _, g := range gs {
+				gstr := g.String()
+				if gstr == d.leaf("dynamicThresh") {
+					continue
+				}
+				if curFFCField >= 0 && gstr == "not(motion.motionDetector."+d.St.Field(curFFCField).Name()+"@recv:motion.motionDetector)" {
+					// the CURRENT frame's state: the field read after this call's store to it (a read from before the
+					// store is the previous frame's state, whose term looks the same)
+					if g.If != nil && (loadsFieldAfterItsStore(g.If.Cond, d.T, curFFCField) || stageRunsAfterStore(w, d, g.If, curFFCField)) {
+						nCur++
+						if nCur == 1 {
+							continue
+						}
+					}
+					gstr += " [the previous frame's state]"
+				}
+				extra = append(extra, gstr)
+			}
+			r.Check(len(extra) == 0, rule, "every frame outside an FFC period reaches the background update (only dynamic-thresh and the current frame's FFC state gate it)", w.InstrPos(call), strings.Join(extra, " ; "))
 			// prevFFC argument is the previous state
 			pa := call.Call.Args[2]
 			// handed down through a stage method split off Detect: the value its single caller passes
@@ -1045,4 +1068,60 @@ func detectBlocks(w *World, d *detInfo, k *kernels) []*ssa.BasicBlock {
 	}
 	walk(d.Detect, 0)
 	return out
+}
+
+// loadsFieldAfterItsStore: v is (the negation of) a load of receiver field fi that comes after a store to that field in
+// the same function (so it observes this call's value, not the one left by the previous call).
+func loadsFieldAfterItsStore(v ssa.Value, T *types.Named, fi int) bool {
+	if u, ok := v.(*ssa.UnOp); ok && u.Op == token.NOT {
+		v = u.X
+	}
+	ld, ok := v.(*ssa.UnOp)
+	if !ok || ld.Op != token.MUL {
+		return false
+	}
+	fa, ok := ld.X.(*ssa.FieldAddr)
+	if !ok || fa.Field != fi || !isPtrTo(fa.X.Type(), T) {
+		return false
+	}
+	for _, b := range ld.Parent().Blocks {
+		for _, in := range b.Instrs {
+			st, ok := in.(*ssa.Store)
+			if !ok {
+				continue
+			}
+			if fa2, ok := st.Addr.(*ssa.FieldAddr); ok && fa2.Field == fi && isPtrTo(fa2.X.Type(), T) {
+				if b == ld.Block() && instrIndex(st) < instrIndex(ld) || b != ld.Block() && b.Dominates(ld.Block()) {
+					return true
+				}
+			}
+		}
+	}
+	return false
+}
+
+// stageRunsAfterStore: the test sits in a stage method split off Detect, whose (single) call in Detect comes after
+// Detect's store to the field - a load in the stage observes the current frame's value.
+func stageRunsAfterStore(w *World, d *detInfo, iff *ssa.If, fi int) bool {
+	if iff.Parent() == d.Detect {
+		return false
+	}
+	site := liftTo(w, d.Detect, iff, 0)
+	if site == nil {
+		return false
+	}
+	for _, b := range d.Detect.Blocks {
+		for _, in := range b.Instrs {
+			st, ok := in.(*ssa.Store)
+			if !ok {
+				continue
+			}
+			if fa, ok := st.Addr.(*ssa.FieldAddr); ok && fa.Field == fi && isPtrTo(fa.X.Type(), d.T) {
+				if b == site.Block() && instrIndex(st) < instrIndex(site) || b != site.Block() && b.Dominates(site.Block()) {
+					return true
+				}
+			}
+		}
+	}
+	return false
 }
